@@ -8,7 +8,7 @@ From Mos Require Import model.I64 Gen.BinOps model.Expr model.ExprParse Gen.Pass
 Extraction "../extract/gen/c06.ml"
   Z.add Z.mul Z.sub Z.opp Z.div Z.modulo Z.pow Z.ltb Z.eqb Z.of_N Z.to_N Z.of_nat Z.to_nat
   all_binops apply_i64 number_value eval parse_expression ws
-  replay_trace max_iterations cap_reports_diagnostic
-  stmt_align stmt_data stmt_pc_then_byte align_padding name_from_string identifier_new loop_iterations
+  replay_trace max_iterations cap_reports_diagnostic clean_needs_no_new_symbols clean_needs_no_changed_symbols
+  stmt_align stmt_data stmt_pc_then_byte stmt_segment_then_byte align_padding name_from_string identifier_new loop_iterations
   segment_emit target_pc source_map_add branch_base branch_offset pc_from_i64 import_depth macro_depth nesting_depth nesting_limit huge_loop_threshold
-  bank_padding Known_bank_size_huge Known_loop_count_huge Known_pc_out_of_range Known_macro_recursion Known_deep_nesting.
+  bank_padding Known_bank_size_huge Known_loop_count_huge Known_macro_recursion Known_deep_nesting.
